@@ -336,6 +336,11 @@ def run(tier, seed):
         "(len, bytes, mode) and accept/ValueError outcome are compared with M4; states = distinct final (buffer, mode) pairs",
         "samples": [{"history": [list(map(_j, o)) for o in h]} for h in ([("mode", 1), ("add_fixed_string", "aÿ", 3, 1)], [("add_three", P4), ("add_char", 252)])],
     }
+    from .. import kwforms
+
+    for w in kwforms.check("writer"):
+        violations.append({"key": "keyword-form:" + w.split(":")[0][:60], "what": w, "case": {"kwforms": True}})
+    coverage["keyword_call_forms_checked"] = True
     return {"coverage": coverage, "violations": violations}
 
 
@@ -348,6 +353,11 @@ def _j(x):
 
 
 def replay(case):
+    if isinstance(case, dict) and case.get("kwforms"):
+        from .. import kwforms
+
+        bad = kwforms.check("writer")
+        return bad[0] if bad else None
     loader.install_shims()
     if case.get("forms"):
         _, bad = argument_forms_check()
